@@ -10,6 +10,7 @@ package app
 import (
 	"encoding/json"
 	"fmt"
+	"io/ioutil"
 	"sort"
 	"time"
 
@@ -106,12 +107,24 @@ type vChain struct {
 	lastHash   []byte
 	db         dbm.DB
 	restarts   int
+	logger     log.Logger
 }
 
 func vNewChain(actorSeed int64, prof vProfile) *vChain {
+	return vNewChainLogging(actorSeed, prof, log.NewNopLogger())
+}
+
+// vVerboseLogger renders every line, debug included (a node run with
+// log_level=debug), and throws the text away.
+func vVerboseLogger() log.Logger {
+	return log.NewTMLogger(log.NewSyncWriter(ioutil.Discard))
+}
+
+func vNewChainLogging(actorSeed int64, prof vProfile, logger log.Logger) *vChain {
 	db := dbm.NewMemDB()
-	a := NewApp(log.NewNopLogger(), db, nil, true, 0, map[int64]bool{}, DefaultHome, simapp.EmptyAppOptions{})
+	a := NewApp(logger, db, nil, true, 0, map[int64]bool{}, DefaultHome, simapp.EmptyAppOptions{})
 	c := &vChain{
+		logger:  logger,
 		db:      db,
 		app:     a,
 		txcfg:   MakeEncodingConfig().TxConfig,
@@ -165,7 +178,10 @@ func (c *vChain) restart() {
 	if c.open {
 		panic("restart inside a block")
 	}
-	c.app = NewApp(log.NewNopLogger(), c.db, nil, true, 0, map[int64]bool{}, DefaultHome, simapp.EmptyAppOptions{})
+	if c.logger == nil {
+		c.logger = log.NewNopLogger()
+	}
+	c.app = NewApp(c.logger, c.db, nil, true, 0, map[int64]bool{}, DefaultHome, simapp.EmptyAppOptions{})
 	c.restarts++
 }
 
